@@ -31,12 +31,17 @@ Three parts, all on the harness-owned virtual-time loop (vlib/vtime.py):
 
 Oracle clauses (statement transcribed): each add_callback callback exactly once, execution order ==
 scheduling order; a timeout runs at most once, never while loop.time() < deadline, never after
-remove_timeout, exactly once when due and not removed, and never while another pending timeout has a
-strictly earlier effective deadline (ties unordered; a deadline already past when scheduled counts as
-"now"); a raising callback / failed returned future is logged at ERROR on tornado.application with
+remove_timeout, exactly once when due and not removed, and never while another pending timeout precedes it
+under both readings of "deadline" - strictly earlier raw deadline AND strictly earlier effective deadline
+(a deadline already past when scheduled counts as "now"); ties and the mutual order of timeouts that were
+already overdue when scheduled are unordered; a raising callback / failed returned future is logged at ERROR on tornado.application with
 that exception and everything else still runs, nothing escapes into asyncio's handler; an add_future
 callback never runs inside add_future() nor in the iteration that completed the future, gets the
-future, runs once.
+future, runs once.  Every callback receives exactly the positional and keyword arguments given to the scheduling call.
+
+Corrections: the deadline-order clause used only the effective (clamped) deadline and so flagged a property-preserving
+change (call_at without clamping: overdue timeouts then run in raw-deadline order).  It now requires the pending
+timeout to precede under both the raw and the effective deadline.  NaN deadlines are outside the domain (never generated).
 
 Sensitivity (quick tier, seed 1, one textual mutation at a time on a scratch copy of /repo/tornado):
   * IOLoop._run_callback re-raises after logging (DESIGN)                      -> caught (C38.exception_escaped_to_asyncio)
@@ -52,7 +57,9 @@ Sensitivity (quick tier, seed 1, one textual mutation at a time on a scratch cop
   * add_callback uses the non-threadsafe call_soon whenever *any* loop is running in the calling thread
     (get_running_loop() succeeds) instead of only for its own loop               -> caught at seeds 1-3
     (C38.threads.callback_queued_without_wakeup) since producers that run their own asyncio/Tornado loop and the
-    idle-target mode were added.  Earlier version: missed (plain producers only; the joiner's wake-up and the
+    idle-target mode were added (each idle case uses one kind of producer and producers only start calling once the
+    target loop is really blocked, so the verdict does not depend on thread interleaving - a mixed case could flip between
+    runs and made the check exit 2 as 'flaky').  Earlier version: missed (plain producers only; the joiner's wake-up and the
     virtual loop's 5 ms polling masked the missing wake-up).
   * run_sync: both `if timeout is not None:` guards turned into `if timeout:` (timeout=0 ignored)  -> caught at
     seeds 1-3 (C38.run_sync.no_timeout_error; never-finishing functions: C38.run_sync.never_returns) since the
@@ -62,6 +69,17 @@ Sensitivity (quick tier, seed 1, one textual mutation at a time on a scratch cop
     virtual clock forward inside the callback (loop thread busy) past A's deadline, then arms B whose later deadline is
     also already over; B must not run while A is overdue and pending.  Earlier version: missed (the clock never moved
     inside a callback, so a past-deadline timeout never coexisted with an overdue earlier one).
+  * run_sync removes its timeout only after `future.result()` (skipped when run_sync leaves by raising; seeded C38-1)
+    -> since the committed run_sync repair (timeout callback ignores an already-done future) this is only observable when
+    run_sync is left with its future still PENDING: new function kind `stops_loop` (calls IOLoop.stop() while unfinished);
+    the stale timeout then cancels the old future during the next run_sync and stops it -> caught
+    (C38.run_sync.loop_not_reusable).
+  * add_timeout(timedelta) forwards `*args` but drops `**kwargs`                 -> caught at seeds 1-3
+    (C38.arguments_not_forwarded) since every scheduling call (add_callback, spawn_callback, add_timeout absolute /
+    timedelta, call_later, call_at, cross-thread add_callback, run_in_executor positional) is made with generated
+    positional and keyword arguments and the callback records exactly what it received.  Earlier version: missed (no
+    arguments were ever passed).  add_callback_from_signal (deprecated, not in the statement) and add_future (takes no
+    extra arguments) are not covered.
   * call_at without `max(0, ...)` (DESIGN)                                      -> NOT caught: equivalent; asyncio's call_later accepts a
     negative delay and fires it at once, only the (unspecified) order among already-past deadlines changes.
 """
@@ -83,12 +101,12 @@ RULE = (
     "main: Hypothesis op-lists (3..30 ops) over {add_callback, spawn_callback, 4 timeout forms x 10 deadline offsets "
     "(multiples of 0.25 s incl. past/now/far), remove_timeout, add_future (asyncio/concurrent, done/later), fire, "
     "advance, jump, settle} x 13 callback behaviours (incl. busy callbacks moving the clock); threads: busy mode k in 2..4 producers x m<=40 payloads + loop-thread "
-    "payloads, idle-target mode k in 1..4 x m<=25, each producer plain / inside asyncio.run / inside its own IOLoop; run_sync: 10 function kinds x durations x timeouts {None, 0.25..100 s, 0, 0.0, 1e-9}. non-trivial (main) = >=3 scheduled items with a "
+    "payloads, idle-target mode k in 1..4 x m<=25, each producer plain / inside asyncio.run / inside its own IOLoop; run_sync: 11 function kinds x durations x timeouts {None, 0.25..100 s, 0, 0.0, 1e-9}. non-trivial (main) = >=3 scheduled items with a "
     "removal or a raising callback among them; distinct = SHA-1 of the case"
 )
 ASSUMPTIONS = [
     "deadlines and clock steps are multiples of 0.25 s at epoch scale, so absolute<->relative conversion is exact",
-    "order between timeouts with equal effective deadlines, and between callbacks and timeouts, is unspecified",
+    "order between timeouts with equal deadlines, between timeouts already overdue when scheduled (raw vs clamped reading), and between callbacks and timeouts, is unspecified",
     "cross-thread order is unspecified; the thread part cannot enumerate interleavings (the OS schedules them)",
     "run_sync ties at positive timeouts (coroutine finishing exactly at the timeout) are not generated; at timeout 0 / 1e-9 the EITHER classes are as stated in the module docstring",
 ]
@@ -117,6 +135,7 @@ class World:
         self.failures = []
         self.labels = set()
         self.it = [0]
+        self.salt = 0
         self.in_add_future = None
         orig = loop._run_once
 
@@ -137,21 +156,42 @@ class World:
         return item
 
     # ---- behaviours
+    def call_args(self, item):
+        """Positional / keyword arguments handed to the scheduling call together with the callback (every scheduling API
+        documents `callback, *args, **kwargs`): none / positional only / keyword only / both, varying with the item."""
+        pat = (item["id"] * 7 + self.salt) % 4
+        args = (item["id"], "p") if pat in (1, 3) else ()
+        kwargs = {"kw": item["id"], "other": "k"} if pat in (2, 3) else {}
+        item["pargs"], item["pkw"] = args, kwargs
+        if kwargs:
+            self.labels.add("kwargs_passed." + item["type"] + ("." + item["form"] if "form" in item else ""))
+        return args, kwargs
+
     def make_fn(self, item):
-        def fn(*args):
+        def fn(*args, **kwargs):
             now = self.loop.time()
             item["runs"] += 1
             self.log.append(item["id"])
             item["run_it"] = self.it[0]
+            if item["type"] in ("cb", "to") and (args != item.get("pargs", ()) or kwargs != item.get("pkw", {})):
+                self.fail("C38.arguments_not_forwarded", {"item": item["id"], "type": item["type"], "form": item.get("form"),
+                                                          "passed": (item.get("pargs"), item.get("pkw")), "received": (args, kwargs)})
             if item["type"] == "to":
                 if item["removed"]:
                     self.fail("C38.timeout_ran_after_remove", {"item": item["id"]})
                 if now < item["deadline"]:
                     self.fail("C38.timeout_before_deadline", {"item": item["id"], "now": now, "deadline": item["deadline"]})
                 for o in self.timeouts:
-                    if o is not item and o["runs"] == 0 and not o["removed"] and o["eff"] < item["eff"]:
-                        self.fail("C38.timeout_deadline_order", {"ran": item["id"], "eff": item["eff"], "pending": o["id"],
-                                                                "pending_eff": o["eff"], "now": now})
+                    # Order violation only if the pending timeout precedes the one that ran under BOTH readings of
+                    # "deadline": the raw deadline and the effective one (a deadline already over when scheduled
+                    # counts as the scheduling instant).  For timeouts that were overdue when scheduled nothing
+                    # fixes their relative order: an implementation may sort them by raw deadline (no clamping) or
+                    # by the instant they were added (clamping to "now").
+                    if (o is not item and o["runs"] == 0 and not o["removed"]
+                            and o["eff"] < item["eff"] and o["deadline"] < item["deadline"]):
+                        self.fail("C38.timeout_deadline_order", {"ran": item["id"], "eff": item["eff"], "deadline": item["deadline"],
+                                                                "pending": o["id"], "pending_eff": o["eff"],
+                                                                "pending_deadline": o["deadline"], "now": now})
             elif item["type"] == "af":
                 if self.in_add_future is item:
                     self.fail("C38.add_future_ran_inline", {"item": item["id"]})
@@ -222,7 +262,8 @@ class World:
     # ---- scheduling calls
     def add_cb(self, beh, spawn=False):
         item = self.new_item("cb", beh)
-        (self.io.spawn_callback if spawn else self.io.add_callback)(self.make_fn(item))
+        a, kw = self.call_args(item)
+        (self.io.spawn_callback if spawn else self.io.add_callback)(self.make_fn(item), *a, **kw)
         return item
 
     def add_to(self, form, q, beh, base=None):
@@ -231,15 +272,16 @@ class World:
         item = self.new_item("to", beh, deadline=now + d, eff=max(now + d, now), form=form)
         self.timeouts.append(item)
         fn = self.make_fn(item)
+        a, kw = self.call_args(item)
         if form == "abs":
-            h = self.io.add_timeout(now + d, fn)
+            h = self.io.add_timeout(now + d, fn, *a, **kw)
         elif form == "td":
-            h = self.io.add_timeout(datetime.timedelta(seconds=d), fn)
+            h = self.io.add_timeout(datetime.timedelta(seconds=d), fn, *a, **kw)
             self.labels.add("timedelta_deadline")
         elif form == "later":
-            h = self.io.call_later(d, fn)
+            h = self.io.call_later(d, fn, *a, **kw)
         else:
-            h = self.io.call_at(now + d, fn)
+            h = self.io.call_at(now + d, fn, *a, **kw)
         item["handle"] = h
         if d < 0:
             self.labels.add("past_deadline")
@@ -292,6 +334,7 @@ async def _scn_main(case, logs):
 
     io = IOLoop.current()
     w = World(loop, io)
+    w.salt = len(case)
     for op in case:
         k = op[0]
         if k == "cb":
@@ -404,6 +447,7 @@ class _IdleWatchSelector:
         if timeout is not None:
             return self._real.select(min(timeout, 0.005))
         st_ = self._state
+        st_["idle_event"].set()  # the target loop is now blocked with nothing to do: producers may start calling
         while True:
             ev = self._real.select(0.005)
             if ev:
@@ -427,7 +471,7 @@ class _IdleWatchSelector:
         return getattr(self._real, name)
 
 
-def _producer_body(io, tid, m, barrier, deliver, pmode, errors):
+def _producer_body(io, tid, m, barrier, deliver, pmode, errors, gate=None):
     """Returns the thread target.  pmode: plain thread / the thread runs its own asyncio loop (asyncio.run) /
     its own Tornado IOLoop (run_sync); in the last two add_callback is called from inside a coroutine, i.e.
     with *another* event loop running in the calling thread."""
@@ -435,13 +479,17 @@ def _producer_body(io, tid, m, barrier, deliver, pmode, errors):
 
     def plain():
         barrier.wait()
+        if gate is not None:
+            gate.wait()
         for s in range(m):
-            io.add_callback(deliver, (tid, s))
+            io.add_callback(deliver, (tid, s), tag=tid)
 
     async def body():
         barrier.wait()
+        if gate is not None:
+            gate.wait()
         for s in range(m):
-            io.add_callback(deliver, (tid, s))
+            io.add_callback(deliver, (tid, s), tag=tid)
             if s % 4 == 3:
                 await asyncio.sleep(0)
 
@@ -476,15 +524,23 @@ async def _scn_threads(case):
     mode = case.get("mode", "busy")
     pmodes = list(case.get("pmodes") or [])
     pmodes = (pmodes + ["plain"] * k)[:k]
+    if mode == "idle":
+        # one kind of producer per idle case and no call before the loop is really blocked: the verdict of a case must
+        # not depend on how the OS interleaves the threads (a wake-up by one producer would also flush the handles
+        # another one queued without waking the loop)
+        pmodes = [case.get("pmode") or pmodes[0]] * k
     local = case["local"] if mode == "busy" else 0
     got = []
     errors = []
     barrier = threading.Barrier(k)
-    state = {"idle_after_done": 0, "permanent_idle": False, "unwoken": 0, "woken": 0, "errors": errors}
+    state = {"idle_after_done": 0, "permanent_idle": False, "unwoken": 0, "woken": 0, "errors": errors,
+             "idle_event": threading.Event()}
     total = k * m
     fin = loop.create_future()
 
-    def deliver(payload):
+    def deliver(payload, tag=None):
+        if tag != payload[0]:
+            errors.append((payload, "keyword argument not forwarded", repr(tag)))
         got.append(payload)
         if mode == "idle" and len(got) >= total and not fin.done():
             fin.set_result(None)
@@ -493,7 +549,8 @@ async def _scn_threads(case):
         if not fin.done():
             fin.set_result(None)
 
-    threads = [threading.Thread(target=_producer_body(io, t + 1, m, barrier, deliver, pmodes[t], errors), daemon=True)
+    threads = [threading.Thread(target=_producer_body(io, t + 1, m, barrier, deliver, pmodes[t], errors,
+                                                      gate=state["idle_event"] if mode == "idle" else None), daemon=True)
                for t in range(k)]
     if mode == "idle":
         # target loop otherwise idle: the harness task waits on `fin`, nothing is scheduled, so only the
@@ -521,8 +578,12 @@ async def _scn_threads(case):
         for t in threads:
             t.start()
         joined = loop.run_in_executor(ex, join_all)
+        # IOLoop.run_in_executor(executor, func, *args): positional arguments reach func, its return value comes back
+        echoed = await io.run_in_executor(ex, lambda *a: ("ran", a), k, "x")
+        if echoed != ("ran", (k, "x")):
+            errors.append(("run_in_executor", "arguments or result not forwarded", repr(echoed)))
         for s in range(local):
-            io.add_callback(deliver, (0, s))
+            io.add_callback(deliver, (0, s), tag=0)
             if s % 3 == 0:
                 await asyncio.sleep(0)
         await joined  # the loop blocks in select() between wake-ups from the producers
@@ -544,7 +605,9 @@ def run_threads(ctx, case):
     local = case["local"] if mode == "busy" else 0
     want = {(0, s) for s in range(local)} | {(t, s) for t in range(1, k + 1) for s in range(m)}
     if state["errors"]:
-        ctx.fail("C38.threads.add_callback_raised", {"case": case, "errors": state["errors"][:3]})
+        fw = [e for e in state["errors"] if "not forwarded" in str(e[1])]
+        ctx.fail("C38.threads.arguments_not_forwarded" if fw else "C38.threads.add_callback_raised",
+                 {"case": case, "errors": (fw or state["errors"])[:3]})
     if errs:
         ctx.fail("C38.threads.error_logged", {"case": case, "records": [(r[0], r[2][:200]) for r in errs[:3]]})
     if state["unwoken"]:
@@ -563,6 +626,8 @@ def run_threads(ctx, case):
     inter = any(got[i][0] != got[i + 1][0] for i in range(len(got) - 1))
     labels = {"threads", "threads." + mode} | ({"threads_interleaved"} if inter else set())
     pm = (list(case.get("pmodes") or []) + ["plain"] * k)[:k]
+    if mode == "idle":
+        pm = [case.get("pmode") or pm[0]] * k
     if "asyncio" in pm or "ioloop" in pm:
         labels.add("producer_runs_own_loop")
     if mode == "idle" and all(x != "plain" for x in pm):
@@ -641,13 +706,30 @@ def run_sync_case(ctx, case):
         seen["started"] += 1
         return "value"
 
-    fns = dict(coro_nowait=coro_nowait, coro_value=coro_value, coro_raise=coro_raise, coro_never=coro_never, sync_none=sync_none,
+    io_box = []
+
+    async def stops_loop():
+        # stops the loop explicitly while still unfinished: run_sync leaves by raising (outcome itself is an EITHER class,
+        # the statement does not cover it); what matters is that nothing of this call leaks into the next run_sync
+        seen["started"] += 1
+        io_box[0].stop()
+        try:
+            await Future()
+        except asyncio.CancelledError:
+            seen["cancelled"] = True
+            raise
+
+    fns = dict(stops_loop=stops_loop, coro_nowait=coro_nowait, coro_value=coro_value, coro_raise=coro_raise, coro_never=coro_never, sync_none=sync_none,
                sync_raise=sync_raise, future_never=future_never, gen_value=gen_value, done_future=done_future)
     sleeping = kind in ("coro_value", "coro_raise", "gen_value")
     never = kind in ("coro_never", "future_never")
     synchronous = kind in ("sync_none", "sync_raise", "done_future")  # outcome known when func() returns
     native = kind in ("coro_value", "coro_raise", "coro_never", "coro_nowait")
     either = False
+    if kind == "stops_loop":
+        boundary = False
+        timeout = max(timeout or 0, 4 * Q)
+        labels.add("run_sync_left_by_explicit_stop")
     if not boundary:
         if sleeping and timeout is not None and dur == timeout:
             timeout = dur + Q  # ties are not generated
@@ -675,10 +757,15 @@ def run_sync_case(ctx, case):
             times_out = False
     with Logs() as logs, vtime.virtual_loop() as (loop, io):
         loop.auto_advance = True
+        io_box.append(io)
         t0 = loop.time()
         outcome = None
         try:
             outcome = ("ok", io.run_sync(fns[kind], timeout=timeout))
+        except RuntimeError as e:
+            if kind != "stops_loop":
+                raise
+            outcome = ("stopped", e)
         except asyncio.TimeoutError as e:
             outcome = ("timeout", e)
         except CbError as e:
@@ -692,14 +779,18 @@ def run_sync_case(ctx, case):
         detail = {"case": case, "outcome": repr(outcome), "elapsed": elapsed, "timeout": timeout, "dur": dur}
         # a native coroutine cancelled before its first step never executes its body (started == 0)
         timed = outcome[0] == "timeout"
-        if seen["started"] > 1 or (seen["started"] == 0 and not (native and timed)):
+        if kind == "stops_loop":
+            pass  # outcome not asserted (EITHER); only the clauses about the loop afterwards apply
+        elif seen["started"] > 1 or (seen["started"] == 0 and not (native and timed)):
             ctx.fail("C38.run_sync.function_called_%d_times" % seen["started"], detail)
         if either and timed:
             labels.add("run_sync_either_timed_out")
             times_out = True
         elif either:
             labels.add("run_sync_either_completed")
-        if times_out:
+        if kind == "stops_loop":
+            pass
+        elif times_out:
             labels.add("run_sync_timeout")
             if outcome[0] != "timeout":
                 ctx.fail("C38.run_sync.no_timeout_error", detail)
@@ -780,14 +871,14 @@ THREADS = st.one_of(
     st.fixed_dictionaries({"mode": st.just("busy"), "k": st.integers(2, 4), "m": st.integers(1, 40), "local": st.integers(0, 20),
                            "pmodes": st.lists(PMODE, min_size=4, max_size=4)}),
     st.fixed_dictionaries({"mode": st.just("idle"), "k": st.integers(1, 4), "m": st.integers(1, 25), "local": st.just(0),
-                           "pmodes": st.lists(PMODE, min_size=4, max_size=4)}),
+                           "pmode": st.sampled_from(["plain", "asyncio", "asyncio", "ioloop", "ioloop"])}),
     st.fixed_dictionaries({"mode": st.just("idle"), "k": st.integers(1, 3), "m": st.integers(1, 25), "local": st.just(0),
-                           "pmodes": st.lists(st.sampled_from(["asyncio", "ioloop"]), min_size=4, max_size=4)}),
+                           "pmode": st.sampled_from(["asyncio", "ioloop"])}),
 )
 
 RUN_SYNC = st.fixed_dictionaries({
     "kind": st.sampled_from(["coro_value", "coro_value", "coro_raise", "coro_never", "sync_none", "sync_raise",
-                             "future_never", "gen_value", "done_future", "coro_nowait"]),
+                             "future_never", "gen_value", "done_future", "coro_nowait", "stops_loop"]),
     "dur_q": st.sampled_from([0, 1, 2, 4, 8, 40]),
     # quarter seconds, or a boundary value: int 0 / float 0.0 / 1e-9 (below one ulp of the epoch-scale clock)
     "timeout_q": st.one_of(st.none(), st.sampled_from([1, 2, 3, 4, 8, 20, 400]), st.sampled_from([1, 2, 3, 4, 8, 20, 400]),
